@@ -22,7 +22,7 @@ RULE = (
 ASSUMPTIONS = [
     "AESGCM.decrypt of `cryptography`; vf/cborlite.py",
     "only distinctness and 'published == used' are judged, not unpredictability; no distribution test is applied (a correct counter-based "
-    "construction would be legal), low-entropy IVs are reached by volume: ~2*10^5 invocations per quick run find a 32-bit-entropy IV with p > 0.99",
+    "construction would be legal), low-entropy IVs are reached by volume: ~2.2*10^5 invocations per quick run find a repeat of a 32-bit-entropy IV with p ~ 0.997",
 ]
 KEY = bytes(range(7, 39))
 
@@ -199,7 +199,7 @@ def storm(ctx, acc, spec, ivfile):
 
 
 def plan(ctx):
-    n = 12000 if not ctx.thorough else 110000
+    n = 16000 if not ctx.thorough else 110000
     specs = [{"kind": "storm", "i": i, "n": n, "mode": ["reused-object", "fresh-object", "reimport"][i % 3]} for i in range(14)]
     specs.append({"kind": "machine", "i": 0, "n": 25 if not ctx.thorough else 300, "steps": 40})
     specs.append({"kind": "cli", "n": 24 if not ctx.thorough else 256, "guard_off": True})
